@@ -10,6 +10,7 @@
 From Coq Require Import Reals QArith Lra List.
 From SpdVerif Require Import Model.FinSum Model.Hom Model.Hom2 Model.C10_Pyth Proofs.C10_pyth Proofs.FinSum_lemmas Proofs.Cx_lemmas Proofs.CMat Proofs.C10_sums
   Proofs.C10_svd Proofs.C10_expand Proofs.C10_identical Proofs.C10_setup Proofs.C10_exec Proofs.C10_sharp Proofs.C10_si_char Proofs.C10_scale Gen.HomSrc Proofs.C10_src.
+From SpdVerif Require Import Model.PMParams Gen.PMIntegrand Proofs.C06_defined Proofs.C06_spectrum Proofs.C09_compose Proofs.C10_compose.
 Local Open Scope R_scope.
 
 (* identical sources (six main grids = one array F), unit phases (zero delay):
@@ -66,6 +67,21 @@ Theorem C10_brightness_invariant : forall J c ls1 li1 ls2 li2 n dt,
   jsi_norm ROps (n * n) (tabulate J (axes_grid ls1 li1 n)) * jsi_norm ROps (n * n) (tabulate J (axes_grid ls2 li2 n)) <> 0 ->
   setup_ts_rates J (fun a b => cmul ROps c (J a b)) ls1 li1 ls2 li2 n dt = setup_ts_rates J J ls1 li1 ls2 li2 n dt.
 Proof. exact setup_brightness_invariant. Qed.
+
+(* composition with the generated spectrum model (C06): the two-source visibilities swap under signal <-> idler relabelling.
+   S: the setup's scalars, Ssw: its with_swapped_signal_idler twin, Q: any quadrature; the setup on the ranges (ls, li), the twin
+   on (li, ls); C06's definedness conditions at the grid points.  V_ss(S) = V_ii(twin), V_ii(S) = V_ss(twin), V_ss(S) = V_ii(S). *)
+Theorem C10_purity_exchange : forall Q S Ssw ls li n,
+  exchange_tie S Ssw -> physical_on S (axes_grid ls li n) ->
+  jsi_norm ROps (n * n) (tabulate (jsa_of Q S) (axes_grid ls li n)) <> 0 ->
+  let v := setup_ts_visibilities_identical (jsa_of Q S) ls li n in
+  let v' := setup_ts_visibilities_identical (jsa_of Q Ssw) li ls n in
+  fst (fst v) = snd (fst v') /\ snd (fst v) = fst (fst v') /\ fst (fst v) = snd (fst v).
+Proof. exact purity_exchange. Qed.
+
+Theorem C10_purity_transpose : forall n M,
+  purity_i ROps n (cmTr M) = purity_s ROps n M /\ purity_s ROps n (cmTr M) = purity_i ROps n M.
+Proof. exact purity_i_transpose. Qed.
 
 (* rates in [0,1] at every delay, arbitrary eight grids: each rate needs the product of the norms of its two cross grids
    not to exceed norm1 * norm2 *)
@@ -220,6 +236,8 @@ Print Assumptions C10_setup_visibilities.
 Print Assumptions C10_free_function_identical.
 Print Assumptions C10_time_delays_equal_sources.
 Print Assumptions C10_brightness_invariant.
+Print Assumptions C10_purity_exchange.
+Print Assumptions C10_purity_transpose.
 Print Assumptions C10_range_general.
 Print Assumptions C10_si_partial.
 Print Assumptions C10_rate_gt1_iff.
